@@ -583,6 +583,11 @@ func (r *ChunkReader) NextChunk() (Chunk, error) {
 			}
 		}
 		for n := int32(r.currNode.arity()); r.nextChunk < n; {
+			if !r.currNode.isLeaf(int(r.nextChunk)) {
+				// A branch node child is not a chunk. Descend into it (or, if
+				// its DRange is empty, past it) via resolveSeekPosition.
+				break
+			}
 			c := r.currNode.chunk(int(r.nextChunk), r.currNodeCBias, r.currNodeDBias)
 			r.nextChunk++
 			r.seekPosition = c.DRange[1]
